@@ -179,11 +179,11 @@ Definition conv_tout (err : option Z) (t : tout aop aview nat) : otout :=
       end
   end.
 
-Definition conv_bout (i : m_binput) (r : res (list N)) : obout :=
+Definition conv_bout (tr : tout aop aview nat) (r : res (list N)) : obout :=
   match r with
   | Ok bs =>
-      match i with
-      | BView => match t_dec_view bs with Some (v, []) => OBViewOut v | _ => OBPanic end
+      match tr with
+      | TViewOut _ => match t_dec_view bs with Some (v, []) => OBViewOut v | _ => OBPanic end
       | _ => match t_dec_reqs bs with Some (l, []) => OBOk l | _ => OBPanic end
       end
   | Err e => OBErr e
@@ -199,7 +199,7 @@ Definition model_obs (tb : rtables) (i : oin) (c : m_call) : ocall :=
   let v := rc_view tb (b_core (c_after _ _ _ _ _ c)) in
   mkO i (m_tin tb c)
       (conv_tout (c_err _ _ _ _ _ c) (c_typed _ _ _ _ _ c))
-      (conv_bout (c_in _ _ _ _ _ c) (c_out _ _ _ _ _ c))
+      (conv_bout (c_typed _ _ _ _ _ c) (c_out _ _ _ _ _ c))
       v v (snap_of (c_after _ _ _ _ _ c)).
 
 (* ------------------------------------------------------------------ building the model's input from a case *)
@@ -345,7 +345,7 @@ Definition nv_history : list m_binput :=
   [BEvent [0; 7]; BResp 1 [0; 42]; BResp 9 [0; 1]; BResp 0 [1]; BResp 2 [1]].
 Definition nonvacuous_run : bool :=
   let calls := m_twin_run nv_tables nv_history in
-  list_eqb obout_eqb (map (fun c => conv_bout (c_in _ _ _ _ _ c) (c_out _ _ _ _ _ c)) calls)
+  list_eqb obout_eqb (map (fun c => conv_bout (c_typed _ _ _ _ _ c) (c_out _ _ _ _ _ c)) calls)
     [OBOk [(0%nat, (0, 0)); (1%nat, (3, 5)); (2%nat, (5, 5))];    (* three effects, ids 0 1 2 *)
      OBOk [(1%nat, (3, 6))];                                       (* id 1 resolved, forgotten, reissued (LIFO) *)
      OBErr 3; OBErr 3; OBErr 2]                                    (* unknown id; a notification's id; bad body for a stream *)
